@@ -53,6 +53,12 @@ def cases(chk):
     for tag, ln in (("TapLeaf", 300), ("TapLeaf", 5), ("BIP0340/challenge", 96), ("x", 2), ("TapTweak", 64), ("TapTweak", 33), ("a_much_longer_tag_than_usual_0123456789", 40)):
         out.append(("tagged_hash", "tagged-hash", [S(tag), D(rb(rng, ln))]))
     out.append(("tagged_hash", "tagged-hash", [S("TapBranch"), D(rb(rng, 32)), D(rb(rng, 32))]))
+    # message parts beyond the script element size (a TapLeaf pre-image is as long as the leaf script), several long parts
+    for tag, ln in (("TapLeaf", 520), ("TapLeaf", 521), ("x", 600), ("TapLeaf", 1000)):
+        out.append(("tagged_hash", "tagged-hash", [S(tag), D(rb(rng, ln))]))
+    out.append(("tagged_hash", None, [S("TapLeaf"), D(rb(rng, 4000))]))
+    out.append(("tagged_hash", None, [S("TapLeaf"), D(rb(rng, 20000))]))
+    out.append(("tagged_hash", "tagged-hash", [S("TapSighash"), D(rb(rng, 530)), D(rb(rng, 3)), D(rb(rng, 700))]))
     # base58check / bech32: every single-character corruption of two encoded strings
     for payload in (b"\x00" + rb(rng, 20), b"\x05" + rb(rng, 20)):
         e = btc.base58check_encode(payload)
